@@ -445,6 +445,13 @@ def probe_layer() -> J:
                 "params": [u8const("rsid", 0x71),
                            {"p": "MATCHING-REQUEST-PARAM", "name": "echo", "req_pos": 1, "len": 3},
                            p_value("r", "u16")]})
+    # a request echo that straddles the end of the request's constant prefix
+    rq("p_sub", [sid(), u8const("sub", 0x01), p_value("rid", "u16")], "sub-function-request")
+    prs.append({"name": "pr_straddle", "for": "p_sub", "shape": "response-echo-straddling",
+                "feat": {"shape": "response-echo-straddling"},
+                "params": [u8const("rsid", 0x71),
+                           {"p": "MATCHING-REQUEST-PARAM", "name": "echo", "req_pos": 1, "len": 3},
+                           p_value("r", "u8")]})
     ngs.append({"name": "nr_nrc", "for": "p_dtc", "shape": "neg-nrc", "feat": {"shape": "neg-nrc"},
                 "params": [u8const("nsid", 0x7F),
                            {"p": "MATCHING-REQUEST-PARAM", "name": "rq_sid", "req_pos": 0, "len": 1},
